@@ -479,6 +479,15 @@ func (g *G) fillBody(bp *BodyPlan, locals []Decl) {
 			if it.Attr.Expr == nil {
 				if it.Attr.Schema == nil || it.Attr.Schema.Constraint == nil {
 					it.Attr.Expr = lit(cty.NumberIntVal(1))
+				} else if it.Attr.Name == "count" || it.Attr.Name == "for_each" {
+					// count.index / each.* are not available in their own defining expression
+					var outer []Decl
+					for _, l := range locals {
+						if !strings.HasPrefix(l.Addr, "count.") && !strings.HasPrefix(l.Addr, "each.") {
+							outer = append(outer, l)
+						}
+					}
+					it.Attr.Expr = g.Expr(it.Attr.Schema.Constraint, 3, outer)
 				} else {
 					it.Attr.Expr = g.Expr(it.Attr.Schema.Constraint, 3, locals)
 				}
@@ -657,6 +666,10 @@ func (g *G) Expr(c schema.Constraint, depth int, locals []Decl) *E {
 		sc := c.OfScopeId
 		if c.Address != nil {
 			sc = c.Address.ScopeId
+		}
+		if c.Address != nil {
+			// the written traversal becomes a declaration itself: no block-local names
+			return ref(g.refTo(nil, sc, c.OfType))
 		}
 		return ref(g.refTo(locals, sc, c.OfType))
 	case schema.List:
